@@ -36,7 +36,7 @@ package vault
 //@ func NewVault(l, currentGroup, ks, sch) (v)
 //@   props C03 C07
 //@   requires currentGroup != nil
-//@   modifies nothing
+//@   modifies currentGroup.GenesisSeed
 //@   ensures [C03,C07:vault-starts-with-group-polynomial] v != nil && v.group == currentGroup && v.share == ks && v.Scheme == sch && v.pub == polyOf(currentGroup.PublicKey, sch)
 
 //@ func (*Vault).SetInfo(v, newGroup, ks)
